@@ -1,5 +1,5 @@
 #![no_main]
 use libfuzzer_sys::fuzz_target;
 fuzz_target!(|data: &[u8]| {
-    vf_core::fuzz_one(data, "C07", &vf_store::c07::case_strategy(&[1, 7, 16]), vf_store::c07::run_case);
+    vf_core::fuzz_one(data, "C07", "differential", &vf_store::c07::case_strategy(&[1, 7, 16]), vf_store::c07::run_case);
 });
